@@ -24,6 +24,8 @@ TECHNIQUE += '; registry-overwrite clause; interpretation of the Config pickle s
 LEVEL_TEXT += ' Added clauses: falsy settings survive __getstate__/__setstate__; one-element tuples, nested containers and strings print as literals that evaluate to themselves; silent overwrite of a registry entry by a same-named class is recorded as a known finding.'
 TECHNIQUE += "; generic encoder/decoder interpreted on stand-in structures (JSON-dumpable output, '__class__' tag, private attributes left out, fallback to a string; decoding of members before reconstruction, unknown tags, plain mappings, tuples)"
 LEVEL_TEXT += ' Added clause: see technique (C14.R8).'
+TECHNIQUE += '; pickle protocol of nodes: __getstate__ -> __setstate__ interpreted on stand-ins with non-default fields'
+LEVEL_TEXT += ' Added clause: every constructor field of a rule, the left-recursion marks included, survives pickling.'
 LEVEL_NOTE = 'Trusted: dataclass semantics (init=False fields are not constructor parameters); BaseNode.__repr__ omits None values.'
 EXPLANATION = ('Static analysis of /repo sources, TatSu not imported. Field tables are computed from the class table and the '
                'dataclass field declarations through the static MRO.')
